@@ -1,0 +1,56 @@
+//go:build verif
+
+// Exported entry points used only by the verification harness (/verif). Built only with
+// -tags verif; nothing here changes the behaviour of the package.
+
+package testdirectory
+
+import (
+	"github.com/hashicorp/go-hclog"
+	"github.com/jimlambrt/gldap"
+)
+
+// VerifNewDirectory builds a Directory that is not listening: the harness drives its
+// handlers in-process through VerifMux.
+func VerifNewDirectory(t TestingT, d *Defaults) *Directory {
+	return &Directory{
+		t:                  t,
+		logger:             hclog.NewNullLogger(),
+		users:              d.Users,
+		groups:             d.Groups,
+		tokenGroups:        d.TokenGroups,
+		userDN:             d.UserDN,
+		groupDN:            d.GroupDN,
+		allowAnonymousBind: d.AllowAnonymousBind,
+	}
+}
+
+// VerifMux registers the directory's handlers exactly as Start does.
+func (d *Directory) VerifMux() (*gldap.Mux, error) {
+	mux, err := gldap.NewMux()
+	if err != nil {
+		return nil, err
+	}
+	for _, err := range []error{
+		mux.DefaultRoute(d.handleNotFound(d.t)),
+		mux.Bind(d.handleBind(d.t)),
+		mux.ExtendedOperation(d.handleStartTLS(d.t), gldap.ExtendedOperationStartTLS),
+		mux.Search(d.handleSearchUsers(d.t), gldap.WithBaseDN(d.userDN), gldap.WithLabel("Search - Users")),
+		mux.Search(d.handleSearchGroups(d.t), gldap.WithBaseDN(d.groupDN), gldap.WithLabel("Search - Groups")),
+		mux.Search(d.handleSearchGeneric(d.t), gldap.WithLabel("Search - Generic")),
+		mux.Modify(d.handleModify(d.t), gldap.WithLabel("Modify")),
+		mux.Add(d.handleAdd(d.t), gldap.WithLabel("Add")),
+		mux.Delete(d.handleDelete(d.t), gldap.WithLabel("Delete")),
+	} {
+		if err != nil {
+			return nil, err
+		}
+	}
+	return mux, nil
+}
+
+// VerifMatch is match.
+func VerifMatch(filter, attr string) bool {
+	ok, _ := match(filter, attr)
+	return ok
+}
